@@ -871,7 +871,127 @@ def sc_class_getter_desc(inj):
     return C, ('sigtools',)
 
 
-SCENARIOS = [sc_class_desc_noforger, sc_class_desc_forger, sc_class_desc_forwarding_init,
+class CachedSigCommand(object):
+    """__signature__ is a property with getter/setter/deleter over a private cache"""
+
+    def __init__(self, func):
+        functools.update_wrapper(self, func)
+        self._sig = _ORIG['signature'](func)
+
+    @property
+    def __signature__(self):
+        return self._sig
+
+    @__signature__.setter
+    def __signature__(self, value):
+        self._sig = value
+
+    @__signature__.deleter
+    def __signature__(self):
+        del self._sig
+
+    def __call__(self, *args, **kwargs):
+        return self.__wrapped__(*args, **kwargs)
+
+
+class SlottedWrapper(object):
+    """__wrapped__ lives in a slot, everything else in __dict__"""
+    __slots__ = ('__wrapped__', '__dict__')
+
+    def __init__(self, func):
+        functools.update_wrapper(self, func)
+        self.__signature__ = _ORIG['signature'](func)
+
+    def __call__(self, *args, **kwargs):
+        return self.__wrapped__(*args, **kwargs)
+
+
+class SlottedBoth(object):
+    """both attributes in slots, plus a __dict__"""
+    __slots__ = ('__wrapped__', '__signature__', '__dict__')
+
+    def __init__(self, func):
+        self.__wrapped__ = func
+        self.__signature__ = _ORIG['signature'](func)
+        self.note = 1
+
+    def __call__(self, *args, **kwargs):
+        return self.__wrapped__(*args, **kwargs)
+
+
+class Proxy(object):
+    """everything but _target is read, set and deleted on the target"""
+
+    def __init__(self, tgt):
+        object.__setattr__(self, '_target', tgt)
+
+    def __getattr__(self, name):
+        return getattr(object.__getattribute__(self, '_target'), name)
+
+    def __setattr__(self, name, value):
+        setattr(object.__getattribute__(self, '_target'), name, value)
+
+    def __delattr__(self, name):
+        delattr(object.__getattribute__(self, '_target'), name)
+
+    def __call__(self, *args, **kwargs):
+        return object.__getattribute__(self, '_target')(*args, **kwargs)
+
+
+def sc_property_backed_signature(inj):
+    return CachedSigCommand(_inner), ('sigtools',)
+
+
+def sc_slot_backed_wrapped(inj):
+    return SlottedWrapper(_inner), ('sigtools',)
+
+
+def sc_slot_backed_both(inj):
+    return SlottedBoth(_inner), ('sigtools',)
+
+
+def sc_forwarding_proxy(inj):
+    @functools.wraps(_inner)
+    def wrapper(*args, **kwargs):
+        return _inner(*args, **kwargs)
+    wrapper.__signature__ = _ORIG['signature'](_inner)
+    return Proxy(wrapper), ('sigtools',)
+
+
+def _handbuilt_sig(with_lists, owner):
+    P = SG.UpgradedParameter
+    params = [P('x', P.POSITIONAL_OR_KEYWORD), P('y', P.POSITIONAL_OR_KEYWORD), P('kwargs', P.VAR_KEYWORD)]
+    if with_lists:
+        return SG.UpgradedSignature(params, sources={p.name: [owner] for p in params})
+    return SG.UpgradedSignature(params)
+
+
+def sc_partial_handbuilt_signature(inj):
+    """partial of a function whose __signature__ is a hand-built UpgradedSignature
+    (default sources={}: no '+depths' key); its provenance is snapshotted by value"""
+    def h(x, y, **kwargs):
+        pass
+    h.__signature__ = _handbuilt_sig(False, h)
+    return functools.partial(h, 1, z=3), ('sigtools',)
+
+
+def sc_partial_handbuilt_signature_lists(inj):
+    def h(x, y, **kwargs):
+        pass
+    h.__signature__ = _handbuilt_sig(True, h)
+    return functools.partial(h, 1, z=3), ('sigtools',)
+
+
+def sc_function_handbuilt_signature(inj):
+    def h(x, y, **kwargs):
+        pass
+    h.__signature__ = _handbuilt_sig(True, h)
+    return h, ('sigtools',)
+
+
+SCENARIOS = [sc_property_backed_signature, sc_slot_backed_wrapped, sc_slot_backed_both, sc_forwarding_proxy,
+             sc_partial_handbuilt_signature, sc_partial_handbuilt_signature_lists, sc_function_handbuilt_signature,
+             sc_class_desc_noforger, sc_class_desc_forger, sc_class_desc_forwarding_init,
              sc_function_forwarding_to_class, sc_function_forwarding_to_forged_class, sc_class_getter_desc,
              sc_wraps, sc_wraps_extra, sc_wraps_and_signature, sc_wraps_chain, sc_instance_sig, sc_class_sig,
              sc_class_sig_inst_wrapped, sc_getter_sig, sc_getter_sig_missing, sc_getter_wrapped, sc_getattr_hook, sc_getattr_hook_missing, sc_getter_both,
@@ -898,11 +1018,48 @@ def _interesting(v):
     return mod == __name__ or mod.startswith('sigtools')
 
 
+_SKIP_CLASS_KEYS = ('__dict__', '__weakref__', '__doc__', '__module__', '__qualname__')
+
+
+def _own_attrs(o):
+    """Where every attribute of o is STORED: the keys of its own __dict__ and its
+    slots ('slot:<name>'), each with the identity of the value and, for atoms
+    (incl. signatures with their provenance), the value.  None: no storage."""
+    d = None
+    try:
+        d = object.__getattribute__(o, '__dict__')
+    except AttributeError:
+        pass
+    attrs = None
+    if isinstance(d, (dict, types.MappingProxyType)):
+        attrs = {}
+        for k, v in list(d.items()):
+            if isinstance(o, type) and k in _SKIP_CLASS_KEYS:
+                continue
+            attrs[k] = (id(v), _atom(v), v)
+    if not isinstance(o, type):
+        for klass in type(o).__mro__:
+            for sl in getattr(klass, '__slots__', ()) if isinstance(getattr(klass, '__slots__', ()), (tuple, list)) else ():
+                if sl in ('__dict__', '__weakref__'):
+                    continue
+                desc = klass.__dict__.get(sl)
+                if desc is None or not hasattr(desc, '__get__'):
+                    continue
+                if attrs is None:
+                    attrs = {}
+                try:
+                    v = desc.__get__(o, type(o))
+                    attrs['slot:' + sl] = (id(v), _atom(v), v)
+                except AttributeError:
+                    attrs['slot:' + sl] = ('<empty slot>', None, None)
+    return attrs
+
+
 def snapshot(root):
     """Deep snapshot by identity and value: for every object reachable from root
-    through __wrapped__/__signature__/__dict__ (also __func__/__self__ of bound
-    methods, func of partials, and the classes of scenario instances): the names
-    in its __dict__, the identity of each value and, for atoms, the value."""
+    through __wrapped__/__signature__/__dict__ and slots (also __func__/__self__ of
+    bound methods, func of partials, and the classes of scenario instances): where
+    each attribute is stored, the identity of each value and, for atoms, the value."""
     seen = {}
     order = []
     roots = root if isinstance(root, list) else [root]
@@ -911,21 +1068,13 @@ def snapshot(root):
         path, o = todo.pop()
         if id(o) in seen or len(seen) > 200:
             continue
-        d = None
-        try:
-            d = object.__getattribute__(o, '__dict__')
-        except AttributeError:
-            pass
         entry = {'path': path, 'type': type(o).__name__, 'obj': o, 'attrs': None}
-        if isinstance(d, (dict, types.MappingProxyType)):
-            attrs = {}
-            for k, v in list(d.items()):
-                if isinstance(o, type) and k in ('__dict__', '__weakref__', '__doc__', '__module__', '__qualname__'):
-                    continue
-                attrs[k] = (id(v), _atom(v))
-                if _interesting(v):
-                    todo.append((path + '.' + k, v))
-            entry['attrs'] = attrs
+        attrs = _own_attrs(o)
+        if attrs is not None:
+            entry['attrs'] = {k: v[:2] for k, v in attrs.items()}
+            for k, v in attrs.items():
+                if v[2] is not None and _interesting(v[2]):
+                    todo.append((path + '.' + k, v[2]))
         seen[id(o)] = entry
         order.append(entry)
         if isinstance(o, types.MethodType):
@@ -938,9 +1087,30 @@ def snapshot(root):
     return order
 
 
+def sig_value(sig):
+    """value-level rendering of a signature INCLUDING its provenance maps (keys,
+    lists, nested '+depths') and the per-parameter lists"""
+    def fn(f):
+        return getattr(f, '__qualname__', None) or repr(type(f))
+    out = ['sig' + str(sig)]
+    src = getattr(sig, 'sources', None)
+    if isinstance(src, dict):
+        for k in src:          # insertion order is part of the value
+            v = src[k]
+            if isinstance(v, dict):
+                out.append('%r:{%s}' % (k, ', '.join('%s:%r' % (fn(f), d) for f, d in v.items())))
+            else:
+                out.append('%r:[%s]' % (k, ', '.join(fn(f) for f in v)))
+    for p in sig.parameters.values():
+        if hasattr(p, 'source_depths'):
+            out.append('%s<%s|%s>' % (p.name, ','.join(fn(f) for f in p.sources),
+                                      ','.join('%s:%r' % (fn(f), d) for f, d in p.source_depths.items())))
+    return ' '.join(out)
+
+
 def _atom(v):
     if isinstance(v, inspect.Signature):
-        return 'sig' + str(v)
+        return sig_value(v)
     if isinstance(v, (str, bytes, int, float, bool, type(None))):
         return repr(v)
     return None
@@ -953,14 +1123,15 @@ def compare(before):
         if e['attrs'] is None:
             continue
         o = e['obj']
-        d = object.__getattribute__(o, '__dict__')
-        now = {k: (id(v), _atom(v)) for k, v in list(d.items())
-               if not (isinstance(o, type) and k in ('__dict__', '__weakref__', '__doc__', '__module__', '__qualname__'))}
+        now = {k: v[:2] for k, v in (_own_attrs(o) or {}).items()}
         for k in e['attrs']:
             if k not in now:
                 out.append(('lost', e['path'], k))
             elif now[k] != e['attrs'][k]:
-                out.append(('changed', e['path'], k))
+                if e['attrs'][k][0] == now[k][0] and e['attrs'][k][1] != now[k][1]:
+                    out.append(('changed in place (%s -> %s)' % (e['attrs'][k][1], now[k][1]), e['path'], k))
+                else:
+                    out.append(('changed', e['path'], k))
         for k in now:
             if k not in e['attrs']:
                 out.append(('gained', e['path'], k))
@@ -1242,6 +1413,111 @@ def direct_verdicts(d):
     return out
 
 
+def build_handbuilt(d, mode, fid):
+    """A legal hand-made input: UpgradedSignature(params) with the constructor's
+    default sources={} ('empty'), or with a caller-written map that lists
+    per-parameter sources only -- no '+depths' key ('lists': every parameter,
+    'some': every other parameter)."""
+    from core import KINDS, py_default, py_ann, name_of, fn_of
+    params = [SG.UpgradedParameter(name_of(nm), KINDS[k], default=py_default(de), annotation=py_ann(an))
+              for nm, k, de, an, ua in d['params']]
+    if mode == 'empty':
+        return SG.UpgradedSignature(params)
+    names = [p.name for p in params]
+    if mode == 'some':
+        names = names[::2]
+    return SG.UpgradedSignature(params, sources={n: [fn_of(fid)] for n in names})
+
+
+def _value_snapshot(sig):
+    """keys (in order), lists and nested maps of sig.sources BY VALUE, the identity of
+    the map and of the parameter objects, and the per-parameter lists"""
+    src = sig.sources
+    return (id(src), [(k, (dict(v) if isinstance(v, dict) else list(v))) for k, v in src.items()],
+            [id(p) for p in sig.parameters.values()],
+            [(p.name, p.kind, list(p.sources), dict(p.source_depths)) for p in sig.parameters.values()], str(sig))
+
+
+def _show_src(items):
+    def one(v):
+        if isinstance(v, dict):
+            return '{%s}' % ', '.join('%s: %r' % (getattr(f, '__name__', '?'), d) for f, d in v.items())
+        return '[%s]' % ', '.join(getattr(f, '__name__', '?') for f in v)
+    return '{%s}' % ', '.join('%r: %s' % (k, one(v)) for k, v in items)
+
+
+HANDBUILT_OPS = [
+    ('sort_params(a, sources=True)', lambda a, b: PS.sort_params(a, sources=True)),
+    ('sort_params(a)', lambda a, b: PS.sort_params(a)),
+    ('apply_params(a, *sort_params(a))', lambda a, b: PS.apply_params(a, *PS.sort_params(a))),
+    ('apply_params(a, *sort_params(a, sources=True))', lambda a, b: PS.apply_params(a, *PS.sort_params(a, sources=True))),
+    ('mask(a, 1)', lambda a, b: PS.mask(a, 1)),
+    ('mask(a, 0, hide_kwargs=True)', lambda a, b: PS.mask(a, 0, hide_kwargs=True)),
+    ('mask(a, 9)', lambda a, b: PS.mask(a, 9)),                       # usually fails
+    ("mask(a, 0, 'zz')", lambda a, b: PS.mask(a, 0, 'zz')),           # fails without **kwargs
+    ('merge(a)', lambda a, b: PS.merge(a)),
+    ('merge(a, b)', lambda a, b: PS.merge(a, b)),
+    ('merge(b, a, b)', lambda a, b: PS.merge(b, a, b)),
+    ('embed(a)', lambda a, b: PS.embed(a)),
+    ('embed(a, b)', lambda a, b: PS.embed(a, b)),
+    ('embed(b, a)', lambda a, b: PS.embed(b, a)),
+    ('forwards(a, b)', lambda a, b: PS.forwards(a, b)),
+    ('forwards(a, b, 1)', lambda a, b: PS.forwards(a, b, 1)),
+    ('forwards(a, b, partial=True)', lambda a, b: PS.forwards(a, b, partial=True)),
+]
+
+
+def handbuilt_verdicts(da, db, mode, only=None):
+    """Every operation on fresh hand-built inputs, succeeding or failing: the inputs'
+    provenance maps must have the same keys, lists and nested maps afterwards."""
+    out = []
+    n = 0
+    fails = 0
+    for label, op in HANDBUILT_OPS:
+        if only is not None and label != only:
+            continue
+        a, b = build_handbuilt(da, mode, 100), build_handbuilt(db, mode, 101)
+        before = _value_snapshot(a), _value_snapshot(b)
+        failed = ''
+        import warnings
+        try:
+            with warnings.catch_warnings():
+                warnings.simplefilter('ignore')
+                op(a, b)
+        except ValueError as e:
+            failed = ' (which raised %s)' % type(e).__name__
+            fails += 1
+        n += 1
+        after = _value_snapshot(a), _value_snapshot(b)
+        for nm, x, y, dd in (('a', before[0], after[0], da), ('b', before[1], after[1], db)):
+            if x != y:
+                out.append(('C16:input-mutated',
+                            "%s%s on hand-built signatures (%s provenance map, no '+depths' key), a=%s b=%s: "
+                            'input %s changed: sources %s -> %s' % (
+                                label, failed, {'empty': 'default empty', 'lists': 'caller-written',
+                                                'some': 'caller-written partial'}[mode],
+                                show_sig(da), show_sig(db), nm, _show_src(x[1]), _show_src(y[1])), label))
+    return out, n, fails
+
+
+def handbuilt_inputs(ctx, rep):
+    rng = ctx.rng('handbuilt')
+    U3 = universe(3, ['a', 'b', 'c'])
+    n = 0
+    nfail = 0
+    for _ in range(120 if ctx.quick else 1500):
+        da = mk_desc(rng.choice(U3) if rng.random() < 0.7 else random_sig(rng, 'abcd', 4, meta=True), None)
+        db = mk_desc(rng.choice(U3) if rng.random() < 0.7 else random_sig(rng, 'abcd', 4, meta=True), None)
+        mode = rng.choice(['empty', 'lists', 'some'])
+        res, k, fails = handbuilt_verdicts(da, db, mode)
+        n += k
+        nfail += fails
+        for key, what, label in res:
+            rep.violation(key, what, {'kind': 'handbuilt', 'a': da, 'b': db, 'mode': mode, 'op': label})
+    rep.coverage['handbuilt_inputs'] = {'operations': n, 'of_which_raised': nfail}
+    return n
+
+
 def sort_apply_direct(ctx, rep):
     rng = ctx.rng('sortapply')
     U3 = universe(3, ['a', 'b', 'c'])
@@ -1275,7 +1551,7 @@ def run(ctx, rep):
         if (m[0], m[1] if m[0] == 'err' else None) != (i[0], i[1] if i[0] == 'err' else None):
             rep.corr_break('error class (algebra model)', c.show(), str(m[:2] if m[0] == 'err' else 'ok'),
                            str(i[:2] if i[0] == 'err' else 'ok'))
-    n1 = len(tr) + shared_identity_cases(ctx, rep) + sort_apply_direct(ctx, rep)
+    n1 = len(tr) + shared_identity_cases(ctx, rep) + sort_apply_direct(ctx, rep) + handbuilt_inputs(ctx, rep)
     rep.coverage['algebra_cases'] = hist
     rep.coverage['algebra_inputs_snapshotted'] = n1
     # (2)
@@ -1335,6 +1611,9 @@ def replay(ctx, data):
         del algebra.PURITY_BREAKS[:]
         del algebra.ALIAS_BREAKS[:]
         return ('%s: %s' % (c.show(), out[0])) if out else None
+    if kind == 'handbuilt':
+        res, _, _ = handbuilt_verdicts(algebra._fix_desc(r['a']), algebra._fix_desc(r['b']), r['mode'], r['op'])
+        return res[0][1] if res else None
     if kind in ('shared', 'sort'):
         rp = Collector()
         d = algebra._fix_desc(r['sig'])
